@@ -95,6 +95,22 @@ def mbox_msg_path(mbox: MH, x: int | str | None = None) -> Path:
 
 ####################################################################
 #
+def mbox_name_is_inside(name: str) -> bool:
+    """
+    Mailbox names are paths relative to the user's mail directory. Returns
+    False for a name that would lead outside of that directory: an absolute
+    path, or one that climbs out of it with `..`.
+    """
+    norm = os.path.normpath(name)
+    return not (
+        os.path.isabs(norm)
+        or norm == os.pardir
+        or norm.startswith(os.pardir + os.sep)
+    )
+
+
+####################################################################
+#
 def intersect(a: IMAPClientCommand, b: IMAPClientCommand) -> bool:
     """
     A helper function that determines if the msg_set_as_set for two
@@ -2925,6 +2941,11 @@ class Mailbox:
         #
         name = name[1:] if name and name[0] == "/" else name
 
+        # The mailbox has to be inside of the user's mail directory.
+        #
+        if not mbox_name_is_inside(name):
+            raise InvalidMailbox(f"Invalid mailbox name: '{name}'")
+
         # You can not create 'INBOX' nor, because of MH rules, create a mailbox
         # that is just the digits 0-9.
         #
@@ -3155,6 +3176,12 @@ class Mailbox:
         - `server`: the user server object
         """
         mbox = await server.get_mailbox(old_name)
+
+        # The new name has to be inside of the user's mail directory.
+        #
+        new_name = new_name[1:] if new_name[:1] == "/" else new_name
+        if not mbox_name_is_inside(new_name):
+            raise InvalidMailbox(f"Invalid mailbox name: '{new_name}'")
 
         # A mailbox can not be moved inside of itself.
         #
